@@ -978,7 +978,23 @@ def spelling_check(sc):
         want = [(m.path_as_str, m.data) for m in find_matches(by_item, doc)]
         if got != want or text != str(by_item):
             return f"{label}.{name} selects {got} / renders {text!r}, {label}[{key!r}] selects {want} / renders {str(by_item)!r}", True
+        # an item key is used as given: members of a (str, Enum) enumeration of field names, or instances of a str
+        # subclass with a presentation of their own, *are* that string (equal to it, hashing like it)
+        import enum
+        for sub in (enum.Enum("Field", {"MEMBER": key}, type=str).MEMBER, _Label(key)):
+            try:
+                sel = [([x.data_name for x in m.path_match_list], m.data) for m in find_matches(root[sub], doc)]
+            except Exception as e:  # noqa
+                return f"{label}[{type(sub).__name__} {key!r}] raised {type(e).__name__}: {e}", True
+            ref = [([x.data_name for x in m.path_match_list], m.data) for m in find_matches(by_item, doc)]
+            if sel != ref:
+                return f"{label}[<{type(sub).__name__} instance equal to {key!r}>] selects {sel}, {label}[{key!r}] selects {ref}", True
     return None, True
+
+
+class _Label(str):
+    def __str__(self):
+        return "<" + str.__str__(self) + ">"
 
 
 def spelling_oracle(ctx):
@@ -1090,6 +1106,76 @@ def work_bound_oracle(ctx):
     pass  # the attempt count is compared with the specification's closed form in the main stream
 
 
+def _dedupe_tuples(steps):
+    """comma lists without repeated entries (a repeated entry is asked for twice, legitimately)"""
+    if isinstance(steps, list):
+        if len(steps) == 2 and steps[0] == "t" and isinstance(steps[1], list):
+            seen = []
+            for e in steps[1]:
+                if not any(e == x and type(e) is type(x) for x in seen):
+                    seen.append(e)
+            return ["t", seen]
+        return [_dedupe_tuples(x) for x in steps]
+    return steps
+
+
+def _multi_rec(x):
+    """does some step list contain two recursive steps (a node is then reached by several routes)?"""
+    if isinstance(x, list):
+        if sum(1 for e in x if e == ["rec"]) >= 2:
+            return True
+        return any(_multi_rec(e) for e in x)
+    return False
+
+
+def rescan_check(sc):
+    """"it never re-scans, restarts": on a tree, a search by a path without parent steps reaches every node by one
+    route, so no attempt (this step, from this node, arriving at that node or failing) is made twice — neither by the
+    search itself nor by the searches its has-filters run for one candidate"""
+    doc = dec(sc["doc"])
+    b = Builder([])
+    expr = b.steps(sc["path"])
+    seen = {}
+    dup = []
+
+    def loc(m):
+        return None if m is None else tuple((type(x.data_name).__name__, x.data_name) for x in m.path_match_list)
+
+    def tr(t):
+        pm = t.predicate_match
+        key = (id(t.next_vertex), loc(t.last_match), loc(t.next_match), loc(pm))
+        if key in seen and not dup:
+            dup.append(f"step {t.next_vertex.path_segment!r} from {t.last_match.path_as_str} to "
+                       f"{t.next_match.path_as_str if t.next_match else None}"
+                       + (f" (while testing candidate {pm.path_as_str})" if pm is not None else ""))
+        seen[key] = True
+
+    b.tracer = tr
+    try:
+        n = sum(1 for _ in find_matches(expr, doc, trace=tr))
+    except TreepathException:
+        n = -1
+    if dup:
+        return f"the same attempt is made twice in one search: {dup[0]} ({len(seen)} distinct attempts)", True
+    return None, len(seen) > 3
+
+
+def rescan_oracle(ctx):
+    def make(rng):
+        for _ in range(50):
+            doc = gen.gen_doc(rng)
+            pg = gen.PathGen(rng, "filter" if rng.random() < 0.7 else "nopar", "has")
+            p = _dedupe_tuples(pg.gen_path([doc], maxlen=4, minlen=1))
+            txt = json.dumps(p)
+            # filters inside a filter's own relative path are left out: their events carry the innermost candidate
+            # only, and that node is reached again from every enclosing candidate above it
+            nested = any(st[0] == "f" and '["f"' in json.dumps(st[1]) for st in p)
+            if '"par"' not in txt and '"below' not in txt and '"nb"' not in txt and not _multi_rec(p) and not nested:
+                return {"doc": enc(doc), "path": p}
+        return {"doc": enc({"a": [1, 2]}), "path": [["k", "a"], ["iwc"]]}
+    _run(ctx, "rescan", 800, 20000, make, rescan_check)
+
+
 def cyclic_check(sc):
     kind = sc["kind"]
     if kind == "dict":
@@ -1171,7 +1257,7 @@ def cyclic_oracle(ctx):
         {"kind": "mutual", "path": [["rec"], ["i", 1]], "take": 2, "expect": "results", "first": [7, 7]},
     ]
     n = ctx.scale(2, len(cases))
-    picks = cases[:n] if ctx.tier == "thorough" else [cases[ctx.rng.randrange(0, 2)], cases[2 + ctx.rng.randrange(0, 4)]]
+    picks = cases[:n] if ctx.tier == "thorough" else [cases[2 * ctx.rng.randrange(0, 3)], cases[1 + 2 * ctx.rng.randrange(0, 3)]]   # one that cannot finish, one that can
     picks = picks + [{"kind": "dict", "path": [["rec"], ["k", "x"]], "take": 350000, "expect": "many", "first": [],
                       "timeout": 120}]
     # a has-predicate whose witness is the first value its (infinite) relative search selects must
@@ -1229,7 +1315,7 @@ def cyclic_optional_oracle(ctx):
 
 CHECKS = {"identity": identity_check, "requery": requery_check, "reiter": reiter_check, "interleave": interleave_check, "threads": thread_check,
           "match_truth": match_truth_check, "concat": concat_check, "untraced": untraced_check,
-          "cyclic": cyclic_check}
+          "cyclic": cyclic_check, "rescan": rescan_check}
 
 
 # ---------------- C06: read-only calls leave the document and the path as they were ----------------
